@@ -16,12 +16,8 @@ def tlc_cfg(c):
                       view="View", invariants=("Lem_Esc",), properties=("Thm_Dict", "Thm_Graph"), action_constraints=("Emit",), deadlock=False)
 
 
-def run_model(c):
-    stats = T.run_tlc("MC_Export", tlc_cfg(c), tag=c["name"], timeout=7200)
-    T.require_ok(stats)
-    if stats["lines"] != stats["generated"] - stats["distinct"]:
-        raise T.MachineryError("%s: %d vectors for %d transitions" % (c["name"], stats["lines"], stats["generated"] - stats["distinct"]))
-    return stats
+def run_model(c, coverage=False):
+    return T.run_vectors("MC_Export", tlc_cfg(c), c["name"], lambda st: st["generated"] - st["distinct"])
 
 
 _memo = {}
